@@ -60,6 +60,25 @@ pub struct Scn {
     pub drop_after: usize,
     /// "close" (items end with a close frame) | "fin" | "rst" | "wait" (wait for the server)
     pub ending: String,
+    /// sizes of server-initiated binary messages: a non-blocking handler sends the next one after
+    /// each idle poll ("nothing yet"), a blocking handler sends them all before its first receive
+    #[serde(default)]
+    pub pushes: Vec<usize>,
+    /// non-blocking handler: after this many idle polls it continues with blocking `recv()`
+    /// (0 = never); both calls are public API of the same stream and must agree
+    #[serde(default)]
+    pub switch_after_idle: u32,
+    /// client-side receive window (slow reader: the server's writes block on it)
+    #[serde(default)]
+    pub client_window: Option<usize>,
+    /// the client starts reading what the server sends only after this long
+    #[serde(default)]
+    pub reader_delay_ms: u64,
+}
+
+/// Payload of the k-th server-initiated message.
+fn push_payload(k: usize, size: usize) -> Vec<u8> {
+    (0..size).map(|i| if i == 0 { 0xB0 + (k as u8 & 0x0F) } else { ((i * 31 + k * 7) % 251) as u8 }).collect()
 }
 
 #[derive(Clone, Debug, PartialEq)]
@@ -68,6 +87,8 @@ enum SEv {
     Closed,
     OtherErr(String),
     NoneWithUnread(usize),
+    /// server-initiated message k was sent; the bool is whether `send` returned Ok
+    Pushed(usize, bool),
 }
 
 /// Render the script to frames; returns (frames, expected messages, pings, has_close).
@@ -123,9 +144,26 @@ fn render(items: &[Item]) -> (Vec<RFrame>, Vec<(bool, Vec<u8>)>, Vec<Vec<u8>>, b
     (frames, msgs, pings, false)
 }
 
-fn handler_loop(mut ws: WebsocketStream, nonblocking: bool, echo: bool, drop_after: usize, log: Arc<Mutex<Vec<SEv>>>) {
+#[allow(clippy::too_many_arguments)]
+fn handler_loop(mut ws: WebsocketStream, mut nonblocking: bool, echo: bool, drop_after: usize, pushes: Vec<usize>, switch_after_idle: u32, log: Arc<Mutex<Vec<SEv>>>) {
     let mut n = 0;
     let mut idle = 0u64;
+    let mut idle_polls = 0u32;
+    let mut pushed = 0usize;
+    let mut push = |ws: &mut WebsocketStream, pushed: &mut usize| -> bool {
+        let k = *pushed;
+        *pushed += 1;
+        let ok = ws.send(Message::new_binary(push_payload(k, pushes[k]))).is_ok();
+        log.lock().unwrap().push(SEv::Pushed(k, ok));
+        ok
+    };
+    if !nonblocking {
+        while pushed < pushes.len() {
+            if !push(&mut ws, &mut pushed) {
+                return;
+            }
+        }
+    }
     loop {
         if drop_after > 0 && n >= drop_after {
             break; // returning drops the stream
@@ -157,6 +195,14 @@ fn handler_loop(mut ws: WebsocketStream, nonblocking: bool, echo: bool, drop_aft
                 Restion::None => {
                     if unread > 0 {
                         log.lock().unwrap().push(SEv::NoneWithUnread(unread));
+                    }
+                    idle_polls += 1;
+                    if pushed < pushes.len() && !push(&mut ws, &mut pushed) {
+                        break;
+                    }
+                    if switch_after_idle > 0 && idle_polls >= switch_after_idle {
+                        nonblocking = false;
+                        continue;
                     }
                     humsim::thread::sleep(Duration::from_millis(3));
                     idle += 3;
@@ -205,7 +251,7 @@ impl Prop for C11 {
         }
     }
     fn rule(&self) -> &'static str {
-        "One case = a client script of 1..12 frames over {text, binary, continuation, ping, pong, close} (payloads 0..70 KiB, messages fragmented 1..5 ways with control frames interleaved, arbitrary mask keys), a Sec-WebSocket-Key (printable string incl. empty and long, or absent), a delivery of the client byte stream (whole, byte-wise, cuts inside the 2-byte header / extended length / key / payload, with gaps), a handler mode (blocking recv or non-blocking recv + virtual sleep), echo on/off, and an ending (client Close, server returning early = drop, abrupt FIN, RST), under a seeded schedule and network knobs. Distinct = distinct (frame kinds, fragment counts, delivery class, handler mode, ending, what the server wrote); non-trivial = at least two frames and a cut inside a frame, or a control frame."
+        "One case = a client script of 1..12 frames over {text, binary, continuation, ping, pong, close} (payloads 0..70 KiB, messages fragmented 1..5 ways with control frames interleaved, arbitrary mask keys), a Sec-WebSocket-Key (printable string incl. empty and long, or absent), a delivery of the client byte stream (whole, byte-wise, cuts inside the 2-byte header / extended length / key / payload, with gaps), a handler mode (blocking recv, non-blocking recv + virtual sleep, or non-blocking for the first idle polls and blocking afterwards), echo on/off or 1..3 server-initiated messages of 10..70 000 bytes (sent after idle polls / before the first receive), optionally a slow-reading client (receive window 512..8192 bytes, reading delayed up to 1.5 s), and an ending (client Close, server returning early = drop, abrupt FIN, RST), under a seeded schedule and network knobs. Distinct = distinct (frame kinds, fragment counts, delivery class, handler mode, ending, what the server wrote); non-trivial = at least two frames and a cut inside a frame, or a control frame."
     }
     fn assumptions(&self) -> Vec<String> {
         vec![
@@ -215,7 +261,7 @@ impl Prop for C11 {
         ]
     }
     fn expected_counters(&self) -> Vec<&'static str> {
-        vec!["c11.runs", "c11.no_key", "c11.nonblocking", "c11.pings", "c11.fragmented_messages", "c11.interleaved_control", "c11.close_ending", "c11.server_drop_ending", "c11.abrupt_ending", "c11.cut_inside_header", "c11.large_payload", "c11.echo"]
+        vec!["c11.runs", "c11.no_key", "c11.nonblocking", "c11.pings", "c11.fragmented_messages", "c11.interleaved_control", "c11.close_ending", "c11.server_drop_ending", "c11.abrupt_ending", "c11.cut_inside_header", "c11.large_payload", "c11.echo", "c11.server_initiated_messages", "c11.nonblocking_then_blocking", "c11.slow_reader"]
     }
     fn real_vs_stub(&self) -> (Vec<&'static str>, Vec<&'static str>) {
         (vec!["humphrey_ws::{websocket_handler, handshake, WebsocketStream::{recv, recv_nonblocking, send, Drop}, Message::from_stream(_nonblocking), Frame}", "humphrey::App (upgrade dispatch), SHA-1/Base64 of the handshake"], vec!["TCP, threads, Instant (humsim)", "client is a harness reference RFC 6455 implementation"])
@@ -275,29 +321,41 @@ impl Prop for C11 {
             3 => Some("dGhlIHNhbXBsZSBub25jZQ==".to_string()),
             _ => Some((0..rng.range(1, 30)).map(|_| (0x21 + rng.below(0x5e) as u8) as char).collect()),
         };
-        serde_json::to_value(Scn {
-            sim,
-            ws_key,
-            nonblocking: rng.chance(1, 2),
-            items,
-            cuts,
-            gap_us: [0u64, 0, 50, 4000, 100_000][rng.usize_below(5)],
-            echo: rng.chance(1, 2),
-            drop_after: if ending == "wait" { rng.range(1, 3) as usize } else if rng.chance(1, 6) { 1 } else { 0 },
-            ending,
-        })
-        .unwrap()
+        let nonblocking = rng.chance(1, 2);
+        let gap_us = [0u64, 0, 50, 4000, 100_000][rng.usize_below(5)];
+        let mut echo = rng.chance(1, 2);
+        let drop_after = if ending == "wait" { rng.range(1, 3) as usize } else if rng.chance(1, 6) { 1 } else { 0 };
+        // dimensions added later are drawn from their own stream, so the older ones keep their values
+        let mut rng2 = Rng::new(humsim::rng::mix(&[run_seed(seed, "C11", idx), 0xC11_0002]));
+        let pushes: Vec<usize> = if rng2.chance(1, 3) { (0..rng2.range(1, 3)).map(|_| [10usize, 200, 5000, 20_000, 70_000][rng2.usize_below(5)]).collect() } else { vec![] };
+        if !pushes.is_empty() {
+            echo = false;
+        }
+        let switch_after_idle = if nonblocking && rng2.chance(1, 4) { rng2.range(1, 3) as u32 } else { 0 };
+        let slow = (echo || !pushes.is_empty()) && rng2.chance(1, 2);
+        let client_window = if slow { Some(rng2.range(512, 8192) as usize) } else { None };
+        let reader_delay_ms = if slow && rng2.chance(1, 2) { rng2.range(1, 1500) } else { 0 };
+        serde_json::to_value(Scn { sim, ws_key, nonblocking, items, cuts, gap_us, echo, drop_after, ending, pushes, switch_after_idle, client_window, reader_delay_ms }).unwrap()
     }
 
     fn execute(&self, scenario: &Value) -> RunResult {
         let mut rr = RunResult { evals: 1, ..Default::default() };
-        let scn: Scn = match serde_json::from_value(scenario.clone()) {
+        let mut scn: Scn = match serde_json::from_value(scenario.clone()) {
             Ok(s) => s,
             Err(e) => {
                 rr.harness_error = Some(format!("bad scenario: {}", e));
                 return rr;
             }
         };
+        // totality under shrinking
+        scn.pushes.truncate(4);
+        for p in scn.pushes.iter_mut() {
+            *p = (*p).min(70_000);
+        }
+        if !scn.pushes.is_empty() {
+            scn.echo = false;
+        }
+        scn.reader_delay_ms = scn.reader_delay_ms.min(2000);
         rr.count("c11.runs", 1);
         let addr: SocketAddr = "127.0.0.1:8085".parse().unwrap();
         let (frames, want_msgs, pings, has_close) = render(&scn.items);
@@ -306,8 +364,8 @@ impl Prop for C11 {
         let (scn2, slog2, clog2, frames2) = (scn.clone(), slog.clone(), clog.clone(), frames.clone());
         let outcome = sim::run(scn.sim.to_config(), move || {
             let scn = scn2;
-            let (nb, echo, da, sl) = (scn.nonblocking, scn.echo, scn.drop_after, slog2.clone());
-            let app: App<()> = App::new_with_config(2, ()).with_websocket_route("/ws", websocket_handler(move |ws: WebsocketStream, _s: Arc<()>| handler_loop(ws, nb, echo, da, sl.clone())));
+            let (nb, echo, da, pu, sw, sl) = (scn.nonblocking, scn.echo, scn.drop_after, scn.pushes.clone(), scn.switch_after_idle, slog2.clone());
+            let app: App<()> = App::new_with_config(2, ()).with_websocket_route("/ws", websocket_handler(move |ws: WebsocketStream, _s: Arc<()>| handler_loop(ws, nb, echo, da, pu.clone(), sw, sl.clone())));
             humsim::thread::spawn(move || {
                 let _ = app.run(addr);
             });
@@ -321,6 +379,9 @@ impl Prop for C11 {
             }
             let req = ReqModel { method: "GET".into(), target: "/ws".into(), version: "HTTP/1.1".into(), headers, body: None }.render();
             let mut log = RecvLog::new();
+            if let Some(w) = scn.client_window {
+                s.sim_set_window(w.max(256));
+            }
             write_all(&mut s, &req);
             // wait for the handshake response head (or the close)
             loop {
@@ -340,8 +401,12 @@ impl Prop for C11 {
                 let mut rd = s.try_clone().expect("clone");
                 let writer_done = Arc::new(std::sync::atomic::AtomicBool::new(false));
                 let wd = writer_done.clone();
+                let reader_delay = scn.reader_delay_ms;
                 let reader = humsim::thread::spawn(move || {
                     let mut l = RecvLog::new();
+                    if reader_delay > 0 {
+                        humsim::thread::sleep(Duration::from_millis(reader_delay));
+                    }
                     loop {
                         // patience is counted from the moment the writer has sent everything
                         let done_before = wd.load(std::sync::atomic::Ordering::SeqCst);
@@ -414,7 +479,13 @@ impl Prop for C11 {
                 off += l;
             }
         }
-        let mode = if scn.nonblocking { "nonblocking" } else { "blocking" };
+        let mode = if scn.nonblocking && scn.switch_after_idle > 0 { "nonblocking-then-blocking" } else if scn.nonblocking { "nonblocking" } else { "blocking" };
+        if scn.nonblocking && scn.switch_after_idle > 0 {
+            rr.count("c11.nonblocking_then_blocking", 1);
+        }
+        if scn.client_window.is_some() {
+            rr.count("c11.slow_reader", 1);
+        }
         if outcome.panics.iter().any(|p| p.thread != "driver") {
             let p = &outcome.panics[0];
             let site = p.location.rsplit('/').next().unwrap_or("").split(':').take(2).collect::<Vec<_>>().join(":");
@@ -513,9 +584,8 @@ impl Prop for C11 {
                 rr.violate("C11/R4", "pong-not-final", String::new());
             }
         }
-        // echoes
-        if scn.echo {
-            let echoes: Vec<(bool, Vec<u8>)> = {
+        // data messages the server wrote (echoes or server-initiated ones), reassembled
+        let echoes: Vec<(bool, Vec<u8>)> = {
                 let mut v = Vec::new();
                 let mut cur: Option<(bool, Vec<u8>)> = None;
                 for f in out_frames.iter().filter(|f| f.opcode <= 2) {
@@ -530,11 +600,28 @@ impl Prop for C11 {
                         }
                     }
                 }
-                v
-            };
+            v
+        };
+        if scn.echo {
             let n = echoes.len().min(got_msgs.len());
             if echoes[..n] != got_msgs[..n] || echoes.len() > got_msgs.len() {
                 rr.violate("C11/R2", "echo-differs", format!("{} echoes for {} messages", echoes.len(), got_msgs.len()));
+            }
+        }
+        // server-initiated messages: a send never fails while the client is connected, and every
+        // message whose send returned Ok is on the wire intact and in order
+        if !scn.pushes.is_empty() {
+            let pushed: Vec<(usize, bool)> = sev.iter().filter_map(|e| if let SEv::Pushed(k, ok) = e { Some((*k, *ok)) } else { None }).collect();
+            rr.count("c11.server_initiated_messages", pushed.len() as u64);
+            let want: Vec<(bool, Vec<u8>)> = pushed.iter().filter(|(_, ok)| *ok).map(|(k, _)| (false, push_payload(*k, scn.pushes[*k]))).collect();
+            if !abrupt {
+                if let Some((k, _)) = pushed.iter().find(|(_, ok)| !*ok) {
+                    rr.violate("C11/R2", format!("server-send-failed:{}", mode), format!("send of server-initiated message {} ({} bytes) returned an error although the client was connected and reading (window {:?}, reader delay {} ms); the client received {} data message(s)", k, scn.pushes[*k], scn.client_window, scn.reader_delay_ms, echoes.len()));
+                } else if echoes != want {
+                    rr.violate("C11/R2", format!("server-message-differs:{}", mode), format!("the handler sent {:?}-byte messages, the client received {:?}-byte data messages", want.iter().map(|m| m.1.len()).collect::<Vec<_>>(), echoes.iter().map(|m| m.1.len()).collect::<Vec<_>>()));
+                }
+            } else if echoes.len() > want.len() + pushed.iter().filter(|(_, ok)| !*ok).count() || echoes.iter().zip(pushed.iter()).any(|(e, (k, _))| e.1 != push_payload(*k, scn.pushes[*k])) {
+                rr.violate("C11/R2", format!("server-message-differs:{}", mode), "a data message received by the client is not one the handler sent".to_string());
             }
         }
         // R5 / R6: close handling
